@@ -1220,3 +1220,59 @@ func ruleFlushOffsetsFollowEveryItem(w *core.World, r *core.Report, c *senderCtx
 		r.Fail("sendCmdsBatch/flush-offsets-follow-every-item", c.main.Pos(), "no flush found")
 	}
 }
+
+// ---------------------------------------------------------------- R19.19 a slot's commands follow one route while earlier ones are unsettled
+
+// ruleRouteFollowsUnsettledSlot: the plain (non-transactional) cluster batchers
+// choose a command's node when it is queued (Put) and follow a MOVED/ASK only
+// when its reply is read (Exec / Receive). Between the two the slot table can
+// be refreshed. A later command of the same slot that is routed by the table
+// alone goes straight to the new owner and is executed there before the
+// earlier one has been redirected: two writes to one key arrive in the
+// opposite order. Per-key order therefore needs the routing of a command to
+// consult what was chosen for its slot by commands that are not settled yet
+// (of this batch, and of the batches in flight): the call that picks the node
+// in Put must be handed state of the batch itself, not only the cluster's
+// table. (W32: reproduced on the unmodified tree, recorded as a known finding:
+// the repair needs per-slot in-flight bookkeeping across three files.)
+func ruleRouteFollowsUnsettledSlot(w *core.World, r *core.Report) {
+	for _, name := range []string{"(*pkg/redis/client/cluster.Batch).Put", "(*pkg/redis/client/cluster.batch2).Put"} {
+		f := fn(w, r, name)
+		if f == nil || len(f.Params) == 0 {
+			continue
+		}
+		label := "Batch.Put"
+		if strings.Contains(name, "batch2") {
+			label = "batch2.Put"
+		}
+		recv := f.Params[0]
+		n := 0
+		for _, s := range core.Sites(f, false) {
+			if s.Instr.Parent() != f || s.Callee == nil || s.Callee.Signature.Results().Len() < 1 {
+				continue
+			}
+			if pt, isPtr := s.Callee.Signature.Results().At(0).Type().(*types.Pointer); !isPtr || !strings.HasSuffix(core.TypeName(pt.Elem()), "redisNode") {
+				continue
+			}
+			n++
+			// batch state handed to the router: the batch itself, or a field of it other than the cluster handle
+			consults := false
+			for i, a := range s.Common().Args {
+				v := core.Unwrap(a)
+				if v == ssa.Value(recv) {
+					consults = true
+				}
+				if ld, ok := v.(*ssa.UnOp); ok && ld.Op == token.MUL {
+					if fa, isFa := ld.X.(*ssa.FieldAddr); isFa && core.Unwrap(fa.X) == ssa.Value(recv) && core.FieldName(fa) != "cluster" {
+						consults = true
+					}
+				}
+				_ = i
+			}
+			r.Check(consults, label+"/route-follows-unsettled-slot", s.Pos(), "the node of a queued command is chosen from the cluster's slot table alone, while redirections are followed only when replies are read: after a table refresh a later command of the same slot goes straight to the new owner and is executed before the earlier, still unsettled one is redirected there — two writes to one key reach the owner in the opposite order")
+		}
+		if n == 0 {
+			r.Fail(label+"/route-follows-unsettled-slot", f.Pos(), "the call that picks the node of a queued command was not found")
+		}
+	}
+}
